@@ -140,6 +140,98 @@ pub const BIG_COMBOS: [(KeyCode, bool, KeyCode); 4] = [
     (KeyCode::CapsLock, false, KeyCode::RAltGr),
 ];
 
+/// Bring a Keyboard's modifier record to `target` using modifier / lock key events only.  False if the record does not
+/// get there (a defect of the record itself is C04's matter; the caller then skips the case).
+pub fn goto_mods<L: KeyboardLayout>(kb: &mut Keyboard<L, ScancodeSet2>, target: u16) -> bool {
+    let ev = |kb: &mut Keyboard<L, ScancodeSet2>, k: KeyCode, st: KeyState| {
+        let _ = kb.process_keyevent(KeyEvent::new(k, st));
+    };
+    let cur = bits_from_mods(kb.get_modifiers());
+    if (cur ^ target) & B_NUMLOCK != 0 {
+        if cur & B_RCTRL2 != 0 {
+            ev(kb, KeyCode::RControl2, KeyState::Up);
+        }
+        ev(kb, KeyCode::NumpadLock, KeyState::Down);
+    }
+    let cur = bits_from_mods(kb.get_modifiers());
+    if (cur ^ target) & B_CAPSLOCK != 0 {
+        ev(kb, KeyCode::CapsLock, KeyState::Down);
+    }
+    for (bit, key) in [(B_LSHIFT, KeyCode::LShift), (B_RSHIFT, KeyCode::RShift), (B_LCTRL, KeyCode::LControl), (B_RCTRL, KeyCode::RControl), (B_LALT, KeyCode::LAlt), (B_RALT, KeyCode::RAltGr), (B_RCTRL2, KeyCode::RControl2)] {
+        let cur = bits_from_mods(kb.get_modifiers());
+        if (cur ^ target) & bit != 0 {
+            ev(kb, key, if target & bit != 0 { KeyState::Down } else { KeyState::Up });
+        }
+    }
+    bits_from_mods(kb.get_modifiers()) == target
+}
+
+/// One observation of the collision-guided pair test: input x was pressed, the record moved to y's modifiers and mode with
+/// modifier events only, then y's key was pressed.
+pub struct PairObs {
+    pub first: (usize, u16, usize),
+    pub second: (usize, u16, usize),
+    pub pre: Modifiers,
+    pub got: Option<DecodedKey>,
+}
+
+/// Presses that leave some field of the Keyboard's Debug rendering with the *same value* although key, modifiers or mode
+/// differ cannot be told apart by that field (a memo keyed on a lossy hash): exactly those pairs are pressed one after the
+/// other.  Returns what the second press of each pair returned; the caller judges it with its own oracle.
+pub fn leaf_collision_pairs(li: usize, keys: &[KeyCode]) -> (Vec<PairObs>, u64, u64) {
+    use std::collections::hash_map::DefaultHasher;
+    use std::hash::{Hash, Hasher};
+    let plain: Vec<usize> = (0..keys.len()).filter(|i| !MOD_KEYS.contains(&keys[*i])).collect();
+    let decode = |n: u32| -> (usize, u16, usize) { (plain[(n >> 10) as usize], (n & 511) as u16, ((n >> 9) & 1) as usize) };
+    let total = (plain.len() as u32) << 10;
+    let mut vals: Vec<(u64, u32)> = Vec::new();
+    let mut fingerprinted = 0u64;
+    for n in 0..total {
+        let (ki, m, mode) = decode(n);
+        let r = guarded(|| {
+            let mut kb = Keyboard::new(ScancodeSet2::new(), dyn_layout(li, 0), MODES[mode]);
+            if !goto_mods(&mut kb, m) {
+                return None;
+            }
+            let _ = kb.process_keyevent(KeyEvent::new(keys[ki], KeyState::Down));
+            Some(format!("{:?}", kb))
+        });
+        if let Ok(Some(r)) = r {
+            fingerprinted += 1;
+            for (path, value) in crate::novelty::flatten(&r) {
+                let mut h = DefaultHasher::new();
+                (path, value).hash(&mut h);
+                vals.push((h.finish(), n));
+            }
+        }
+    }
+    let mut pairs = std::collections::BTreeSet::new();
+    crate::hidden::colliding_pairs(&mut vals, 3, &mut pairs, 200_000);
+    drop(vals);
+    let mut out = Vec::new();
+    for (x, y) in pairs.iter() {
+        let (fx, fy) = (decode(*x), decode(*y));
+        let r = guarded(|| {
+            let mut kb = Keyboard::new(ScancodeSet2::new(), dyn_layout(li, 0), MODES[fx.2]);
+            if !goto_mods(&mut kb, fx.1) {
+                return None;
+            }
+            let _ = kb.process_keyevent(KeyEvent::new(keys[fx.0], KeyState::Down));
+            kb.set_ctrl_handling(MODES[fy.2]);
+            if !goto_mods(&mut kb, fy.1) {
+                return None;
+            }
+            let pre = kb.get_modifiers().clone();
+            let got = kb.process_keyevent(KeyEvent::new(keys[fy.0], KeyState::Down));
+            Some((pre, got))
+        });
+        if let Ok(Some((pre, got))) = r {
+            out.push(PairObs { first: fx, second: fy, pre, got });
+        }
+    }
+    (out, fingerprinted, pairs.len() as u64)
+}
+
 pub fn through_decoder(prop: &str, rep: &mut Report, cube: &Cube, focus: &[KeyCode], acc: &dyn Fn(usize, usize, u16, usize) -> Acc) {
     let (n_hist, len) = if rep.thorough() { (4000usize, 400usize) } else { (120, 250) };
     let mut presses = 0u64;
@@ -255,39 +347,80 @@ pub fn through_decoder(prop: &str, rep: &mut Report, cube: &Cube, focus: &[KeyCo
             }
         }
     }
-    // thorough: the same ABA shape with exactly 2^32 changes (streamed; one thread per combination, judged afterwards)
-    if rep.thorough() {
-        let n: u64 = 1 << 32;
+    // the same ABA shape with exactly 2^k changes for every k (a tag or generation that is truncated to k bits sees its old value
+    // again): streamed, one thread per combination, judged afterwards.  quick: k = 9..26, thorough: k = 9..32
+    {
+        let kmax: u32 = if light() { 17 } else if rep.thorough() { 32 } else { 26 };
         let key = focus[(rep.seed % focus.len() as u64) as usize];
         let mut handles = Vec::new();
         for (c, (tog, alt, last)) in BIG_COMBOS.iter().enumerate() {
             let li = ((rep.seed as usize) + c * 3) % cube.n_layouts;
             let (tog, alt, last) = (*tog, *alt, *last);
-            handles.push((li, c, std::thread::spawn(move || guarded(|| big_aba(dyn_layout(li, 0), key, tog, alt, last, n)))));
+            handles.push((
+                li,
+                c,
+                std::thread::spawn(move || {
+                    let mut all = Vec::new();
+                    for k in 9..=kmax {
+                        match guarded(|| big_aba(dyn_layout(li, 0), key, tog, alt, last, 1u64 << k)) {
+                            Ok(obs) => all.push((k, obs)),
+                            Err(_) => return Err(()),
+                        }
+                    }
+                    Ok(all)
+                }),
+            ));
         }
         for (li, c, h) in handles {
             match h.join() {
-                Ok(Ok(obs)) => {
-                    rep.count("aba_2_32_histories", 1);
-                    rep.count("aba_2_32_events", 2 * n);
+                Ok(Ok(all)) => {
                     let Some(ki) = cube.key_index(key) else { continue };
-                    for o in obs {
-                        presses += 1;
-                        let got = o.got.map(dk_enc).unwrap_or(ENC_NONE);
-                        if let Some(want) = judge(cube, acc, li, key, ki, o.mods, mode_idx(o.mode), got, &mut judged) {
-                            let gs = if got == ENC_NONE { "None".to_string() } else { cube.show(got) };
-                            rep.violate(
-                                format!("{}|via-decoder|{}|key={:?}|want={}|got={}", prop, layout_name(li), key, want, gs),
-                                format!(
-                                    "{} through Keyboard::process_keyevent, 2^32-change history #{} ({:?} … then {:?}), press '{}': {:?} with reported modifiers {} (Ctrl mode {}) typed {}; the property requires {}",
-                                    layout_name(li), c, BIG_COMBOS[c].0, BIG_COMBOS[c].2, o.step, key, mods_str(o.mods), mode_str(o.mode), gs, want
-                                ),
-                                J::obj().with("kind", J::s("aba-2^32")).with("layout", J::s(layout_name(li))).with("combo", J::u(c as u64)).with("step", J::s(o.step)),
-                            );
+                    for (k, obs) in all {
+                        rep.count("aba_2^k_histories", 1);
+                        rep.count("aba_2^k_events", 2u64 << k);
+                        for o in obs {
+                            presses += 1;
+                            let got = o.got.map(dk_enc).unwrap_or(ENC_NONE);
+                            if let Some(want) = judge(cube, acc, li, key, ki, o.mods, mode_idx(o.mode), got, &mut judged) {
+                                let gs = if got == ENC_NONE { "None".to_string() } else { cube.show(got) };
+                                rep.violate(
+                                    format!("{}|via-decoder|{}|key={:?}|want={}|got={}", prop, layout_name(li), key, want, gs),
+                                    format!(
+                                        "{} through Keyboard::process_keyevent, history with exactly 2^{} changes (#{}: {:?} … then {:?}), press '{}': {:?} with reported modifiers {} (Ctrl mode {}) typed {}; the property requires {}",
+                                        layout_name(li), k, c, BIG_COMBOS[c].0, BIG_COMBOS[c].2, o.step, key, mods_str(o.mods), mode_str(o.mode), gs, want
+                                    ),
+                                    J::obj().with("kind", J::s("aba-2^k")).with("k", J::u(k as u64)).with("layout", J::s(layout_name(li))).with("combo", J::u(c as u64)).with("step", J::s(o.step)),
+                                );
+                            }
                         }
                     }
                 }
                 _ => rep.count("via_decoder_histories_aborted_by_a_panic", 1),
+            }
+        }
+    }
+    // collision-guided pairs: presses that leave a field of the Keyboard's rendering equal although their inputs differ
+    {
+        let li = (rep.seed as usize) % cube.n_layouts;
+        let (obs, fingerprinted, pairs) = leaf_collision_pairs(li, &cube.keys);
+        rep.count("presses_fingerprinted_by_the_fields_of_the_rendering", fingerprinted);
+        rep.count("pairs_of_presses_that_leave_a_field_equal_pressed_back_to_back", pairs);
+        for o in obs {
+            presses += 1;
+            let (ki, _, mode) = o.second;
+            let m = bits_from_mods(&o.pre);
+            let got = o.got.map(dk_enc).unwrap_or(ENC_NONE);
+            if let Some(want) = judge(cube, acc, li, cube.keys[ki], ki, m, mode, got, &mut judged) {
+                let gs = if got == ENC_NONE { "None".to_string() } else { cube.show(got) };
+                let k1 = cube.keys[o.first.0];
+                rep.violate(
+                    format!("{}|via-decoder|{}|key={:?}|want={}|got={}", prop, layout_name(li), cube.keys[ki], want, gs),
+                    format!(
+                        "{} through Keyboard::process_keyevent: after a press of {:?} with {} (mode {}) and modifier events only, the press of {:?} with reported modifiers {} (Ctrl mode {}) typed {}; the property requires {}",
+                        layout_name(li), k1, mods_str(o.first.1), mode_str(MODES[o.first.2]), cube.keys[ki], mods_str(m), mode_str(MODES[mode]), gs, want
+                    ),
+                    J::obj().with("kind", J::s("collision-pair")).with("layout", J::s(layout_name(li))).with("first", J::s(format!("{:?} {} {}", k1, mods_str(o.first.1), mode_str(MODES[o.first.2])))).with("second", J::s(format!("{:?} {} {}", cube.keys[ki], mods_str(m), mode_str(MODES[mode])))),
+                );
             }
         }
     }
